@@ -1,22 +1,28 @@
 use crate::common::Args;
 
+pub mod c01;
 pub mod c02;
 pub mod c03;
 pub mod c06;
 pub mod c08;
+pub mod c10;
 pub mod c11;
 pub mod c11_l2;
 pub mod c14;
+pub mod c18;
 pub mod c14_extra;
 
 pub fn dispatch(args: &Args) -> i32 {
     match args.id.as_str() {
+        "C01" => c01::run(args),
         "C02" => c02::run(args),
         "C03" => c03::run(args),
         "C06" => c06::run(args),
         "C08" => c08::run(args),
+        "C10" => c10::run(args),
         "C11" => c11::run(args),
         "C14" => c14::run(args),
+        "C18" => c18::run(args),
         other => {
             eprintln!("unknown property id {:?}", other);
             3
